@@ -188,7 +188,8 @@ func render1(w writer, n *Node) error {
 	}
 
 	// Add initial newline where there is danger of a newline being ignored.
-	if c := n.FirstChild; c != nil && c.Type == TextNode && strings.HasPrefix(c.Data, "\n") {
+	// The parser ignores it only for these elements in the HTML namespace.
+	if c := n.FirstChild; n.Namespace == "" && c != nil && c.Type == TextNode && strings.HasPrefix(c.Data, "\n") {
 		switch n.Data {
 		case "pre", "listing", "textarea":
 			if err := w.WriteByte('\n'); err != nil {
